@@ -134,3 +134,28 @@ func VerifV1BoundVertex(cells int, minOffset v3i.Vec, q, massPointSum v3.Vec, nu
 func VerifV2LeastSquares(A []v3.Vec, b []float64) v3.Vec {
 	return (&DualContouringV2{qefFailedImplWarned: true}).leastSquares(A, b)
 }
+
+// VerifV2TrianglesAt runs placeVertices, then the real generateTriangles on a copy of the vertex buffer in
+// which the vertex of every cell is moved to pos(cell, placed position).  It returns the cell owning each
+// vertex, the positions used and the triangles generateTriangles sent, in emission order (VerifV2Buffers
+// with the same renderer settings and field names the cells of every triangle before the degenerate filter).
+func VerifV2TrianglesAt(dc *DualContouringV2, s sdf.SDF3, pos func(cell v3i.Vec, placed v3.Vec) v3.Vec) (cells []v3i.Vec, used []v3.Vec, tris []sdf.Triangle3) {
+	_, n := dc.getCells(s)
+	s2 := &dcSdf{s, map[v3.Vec]float64{}}
+	vertexBuffer, info, infoI := dc.placeVertices(s2, n)
+	cells = make([]v3i.Vec, len(vertexBuffer))
+	used = make([]v3.Vec, len(vertexBuffer))
+	for _, vi := range info {
+		cells[vi.bufIndex] = vi.cellIndex
+		used[vi.bufIndex] = pos(vi.cellIndex, vertexBuffer[vi.bufIndex])
+	}
+	ch := make(chan []*sdf.Triangle3, 3*len(info)+1)
+	dc.generateTriangles(s2, used, info, infoI, ch)
+	close(ch)
+	for ts := range ch {
+		for _, t := range ts {
+			tris = append(tris, *t)
+		}
+	}
+	return cells, used, tris
+}
